@@ -206,6 +206,27 @@ def defect_signature(fmt, hx, diag):
     return "Deserialize:accepted-input-the-model-rejects(%s)" % diag
 
 
+def json_unsafe_float(vs):
+    """does the V-syntax text hold a binary64 with 2^52 <= |f| < 1e21 (written by ugorji's JSON
+    encoder as an INTEGER literal: shortest digits padded with zeros)?"""
+    import struct
+    for tok in vs.split():
+        if len(tok) == 17 and tok[0] == "D":
+            try:
+                f = struct.unpack(">d", bytes.fromhex(tok[1:]))[0]
+            except Exception:
+                continue
+            if f == f and 2.0 ** 52 <= abs(f) < 1e21:
+                return True
+    return False
+
+
+JSON_FLOAT_SIG = "json:float-from-2^52-written-as-integer-literal"
+JSON_FLOAT_WHAT = ("JSON: a float64 payload value with 2^52 <= |f| < 1e21 is written without fraction or exponent "
+                   "(shortest digits padded with zeros); it is read back as an integer of a possibly different value, "
+                   "and Deserialize fails outright when it is below -2^63")
+
+
 def is_map_start(fmt, hx):
     if not hx:
         return False
@@ -348,11 +369,17 @@ class Run:
                 continue
             # the property itself, on the implementation alone
             if gk != "ok":
-                self.report("roundtrip:deserialize-fails", "Deserialize(Serialize(m)) fails: " + c["D"], c)
+                if c["fmt"] == "json" and json_unsafe_float(c["msg"]):
+                    self.report(JSON_FLOAT_SIG, JSON_FLOAT_WHAT + " — here: " + c["D"][:200], c)
+                else:
+                    self.report("roundtrip:deserialize-fails", "Deserialize(Serialize(m)) fails: " + c["D"], c)
                 continue
             if rt != "true":
-                self.report("roundtrip:different-message", "Deserialize(Serialize(m)) is not m (up to numeric kind / nil-empty)", c,
-                            dict(monitor=rt))
+                if c["fmt"] == "json" and json_unsafe_float(c["msg"]):
+                    self.report(JSON_FLOAT_SIG, JSON_FLOAT_WHAT, c, dict(monitor=rt))
+                else:
+                    self.report("roundtrip:different-message", "Deserialize(Serialize(m)) is not m (up to numeric kind / nil-empty)", c,
+                                dict(monitor=rt))
                 continue
             self.count("messages: round trip equal (monitor)")
             # model encoder vs implementation encoder: same bytes up to the order of dict entries
@@ -421,10 +448,16 @@ class Run:
                 continue
             # monitor: the value comes back as itself up to numeric kind
             if vk != "ok":
-                self.report("roundtrip:value-deserialize-fails", "DeserializeDataItem(SerializeDataItem(v)) fails: " + c["V"][:200], c)
+                if c["fmt"] == "json" and json_unsafe_float(c["msg"]):
+                    self.report(JSON_FLOAT_SIG, JSON_FLOAT_WHAT + " — here: " + c["V"][:200], c)
+                else:
+                    self.report("roundtrip:value-deserialize-fails", "DeserializeDataItem(SerializeDataItem(v)) fails: " + c["V"][:200], c)
                 continue
             if rtv != "true":
-                self.report("roundtrip:value-changed", "DeserializeDataItem(SerializeDataItem(v)) is not v (up to numeric kind)", c, dict(monitor=rtv))
+                if c["fmt"] == "json" and json_unsafe_float(c["msg"]):
+                    self.report(JSON_FLOAT_SIG, JSON_FLOAT_WHAT, c, dict(monitor=rtv))
+                else:
+                    self.report("roundtrip:value-changed", "DeserializeDataItem(SerializeDataItem(v)) is not v (up to numeric kind)", c, dict(monitor=rtv))
                 continue
             self.count("values: round trip equal (monitor)")
             self.distinct.add((c["fmt"], "value", c["msg"]))
@@ -549,11 +582,13 @@ def main(tier, replay):
     run = Run(tier, drive, model, v)
     thorough = tier == "thorough"
     escalate = bool(tie_broken or undischarged)
-    n_msg = 4800 if thorough or escalate else 1200
-    n_val = 20000 if thorough or escalate else 3000
-    n_mut = 400000 if thorough else (60000 if escalate else 20000)
+    n_msg = 2400 if escalate else 840
+    n_val = 9000 if escalate else 3000
+    n_mut = 60000 if escalate else 20000
     if thorough:
-        n_msg, n_val = 66000, 100000
+        n_msg, n_val, n_mut = 33600, 100000, 1000000
+    scale = float(os.environ.get("C14_SCALE", "1"))
+    n_msg, n_val, n_mut = max(24, int(n_msg * scale)), max(30, int(n_val * scale)), max(300, int(n_mut * scale))
 
     common.info("C14: setup %.1fs" % t.s())
     # 1. the recorded witnesses of the known defect classes, on the real code
@@ -653,6 +688,7 @@ def main(tier, replay):
         translator=dict(errors=terrors, notes=summary.get("notes"), shape=shape, mp_opts=mp_opts),
         tie_broken=tie_broken, unrepaired_shape=defect_shapes,
         correspondence_disagreements=len(run.broken),
+        first_disagreements=[dict(fmt=b["case"].get("fmt"), hex=(b["case"].get("hex") or "")[:200], why=b["why"][:400]) for b in run.broken[:25]],
         findings=[f["signature"] for f in run.findings],
         hygiene=hyg,
     )
